@@ -476,7 +476,7 @@ class SrcEdit:
                 new_del_end_ln = min(bound_end_ln, del_end_ln + postspace + 1)  # account for not ending on newline
                 del_end_ln = (frag.ln - 1
                               if (frag := next_frag(lines, del_end_ln, del_end_col, new_del_end_ln, 0, True, True)) else
-                              new_del_end_ln - 1)
+                              max(del_end_ln, new_del_end_ln - 1))  # max() because bound may be this very line (last line of source without trailing newline)
                 del_end_col = len(lines[del_end_ln])
 
         del_pre_post_space = (min(o_prespace, del_loc.ln - del_ln),
